@@ -126,6 +126,7 @@ theorem lastVal_none (es : List (String × String)) (k : String) (h : k ∉ es.m
 /-! ## the four tables, indexed -/
 
 inductive Tb | pdr | far | app | sess
+  deriving DecidableEq
 
 def Tables.tab (t : Tables) : Tb → Table
   | .pdr => t.pdr | .far => t.far | .app => t.appQer | .sess => t.sessQer
@@ -599,57 +600,11 @@ theorem inv_iff_image (cfg : Cfg) (w : World) (hI : Inv cfg w) (X : Tb) (k : Str
 theorem inv_start (cfg : Cfg) (pool : Option Pool.P) (g : Teid.G) : Inv cfg { pool := pool, teid := g } :=
   ⟨by simp, by simp [allSessions, flat], by simpa [allSessions, flat] using imgOf_empty cfg⟩
 
-inductive Ev
-  | assoc (a : Nat) (node : String)
-  | pfd (a : Nat) (apps : List (String × List String)) (ok : Bool)
-  | est (a lseid : Nat) (r : EstReq)
-  | del (a seid : Nat)
-  | report (a seid : Nat)
-  | shutdown (a : Nat)
-
-def stepEv (cfg : Cfg) (w : World) : Ev → World
-  | .assoc a node => assocSetup w a node
-  | .pfd a apps ok => pfdManagement w a apps ok
-  | .est a lseid r => (establish cfg w a lseid r).1
-  | .del a seid => (deleteSession cfg w a seid).1
-  | .report a seid => reportContextNotFound cfg w a seid
-  | .shutdown a => shutdownConn cfg w a
-
-/-- the envelope of C03 along a history: a session that an establishment stores has a SEID and keys no stored session has -/
-def EnvOK (cfg : Cfg) : World → List Ev → Prop
-  | _, [] => True
-  | w, ev :: rest =>
-    (match ev with
-     | .est a lseid r => (establish cfg w a lseid r).2.upSeid.isSome → ∀ s : Session, newSession cfg w a lseid r = some s →
-         ∀ s' ∈ allSessions w, Disj cfg s s'
-     | _ => True) ∧ EnvOK cfg (stepEv cfg w ev) rest
-
 theorem setL_same_sessions (cfg : Cfg) (w : World) (a : Nat) (c : Conn) (hI : Inv cfg w) (hs : c.sessions = (w.conn a).sessions)
     (w' : World) (hc : w'.conns = setL w.conns a c) (ht : w'.tables = w.tables) : Inv cfg w' := by
   obtain ⟨rest, p1, p2⟩ := conn_sublist_perm w a hI.keys
   have p : (allSessions w).Perm (allSessions w') := by
     unfold allSessions; rw [hc]; exact p1.trans (by rw [← hs]; exact (p2 c).symm)
   exact ⟨by rw [hc]; exact keys_setL _ _ _ hI.keys, pairwise_perm p hI.disj, by rw [ht]; exact hI.img.perm p⟩
-
-/-- **C03 on the agent model, every history without modifications**: from start-up on, after every association setup,
-PFD update, establishment (accepted or refused), deletion, report "context not found" and association ending, over any
-number of associations and sessions, the four lookup tables are the image of the stored sessions -/
-theorem inv_run (cfg : Cfg) : ∀ (evs : List Ev) (w : World), Inv cfg w → EnvOK cfg w evs → Inv cfg (evs.foldl (stepEv cfg) w)
-  | [], _, hI, _ => hI
-  | ev :: rest, w, hI, henv => by
-    rw [List.foldl_cons]
-    refine inv_run cfg rest _ ?_ henv.2
-    cases ev with
-    | assoc a node =>
-      exact setL_same_sessions cfg w a { w.conn a with remoteNode := node } hI rfl (assocSetup w a node) (setConn_conns _ _ _) (setConn_tables _ _ _)
-    | pfd a apps ok =>
-      cases ok
-      · exact hI
-      · exact setL_same_sessions cfg w a { w.conn a with apps := apps } hI rfl (w.setConn a { w.conn a with apps := apps })
-          (setConn_conns _ _ _) (setConn_tables _ _ _)
-    | est a lseid r => exact establish_inv cfg w a lseid r hI henv.1
-    | del a seid => exact delete_inv cfg w a seid hI
-    | report a seid => exact report_inv cfg w a seid hI
-    | shutdown a => exact shutdown_inv cfg w a hI
 
 end Agent
